@@ -24,6 +24,9 @@ enum Family {
     ChainGroup { n: usize },
     /// n keywords k0000 .. sharing their first character (one state with n transitions on one class)
     Numbered { n: usize },
+    /// a counted repetition that is the whole pattern: shape 0 = a{n}, 1 = (ab){n}, 2 = a{n,},
+    /// 3 = a{n-n/3,n}
+    Pure { n: usize, shape: usize },
 }
 
 fn family_of(v: &Value) -> Option<Family> {
@@ -40,6 +43,7 @@ fn family_of(v: &Value) -> Option<Family> {
         "chain_class" => Family::ChainClass { n: n("n")? },
         "chain_group" => Family::ChainGroup { n: n("n")? },
         "numbered" => Family::Numbered { n: n("n")? },
+        "pure" => Family::Pure { n: n("n")?, shape: n("shape")? },
         _ => return None,
     })
 }
@@ -54,6 +58,7 @@ fn family_json(f: &Family) -> Value {
         Family::ChainClass { n } => json!({"kind": "chain_class", "n": n}),
         Family::ChainGroup { n } => json!({"kind": "chain_group", "n": n}),
         Family::Numbered { n } => json!({"kind": "numbered", "n": n}),
+        Family::Pure { n, shape } => json!({"kind": "pure", "n": n, "shape": shape}),
     }
 }
 
@@ -155,6 +160,55 @@ fn instance(f: &Family) -> (Vec<scnr::Pattern>, Vec<(String, Vec<Tok>)>) {
             input.push_str(&kw(*n + 7));
             (pats, vec![(input, exp)])
         }
+        Family::Pure { n, shape } => {
+            let n = *n;
+            let tok = |s: usize, e: usize| Tok { tt: 7, start: s, end: e };
+            let a = |m: usize| "a".repeat(m);
+            let (pat, probes): (String, Vec<(String, Vec<Tok>)>) = match shape {
+                0 => (
+                    format!("a{{{}}}", n),
+                    vec![
+                        (a(n), vec![tok(0, n)]),
+                        (a(n - 1), vec![]),
+                        (a(n + 1), vec![tok(0, n)]),
+                        (a(2 * n + 1), vec![tok(0, n), tok(n, 2 * n)]),
+                        (format!("{}b{}", a(n - 1), a(n)), vec![tok(n, 2 * n)]),
+                    ],
+                ),
+                1 => (
+                    format!("(ab){{{}}}", n),
+                    vec![
+                        ("ab".repeat(n), vec![tok(0, 2 * n)]),
+                        ("ab".repeat(n - 1), vec![]),
+                        (format!("{}a", "ab".repeat(n - 1)), vec![]),
+                        ("ab".repeat(n + 1), vec![tok(0, 2 * n)]),
+                    ],
+                ),
+                2 => (
+                    format!("a{{{},}}", n),
+                    vec![
+                        (a(n), vec![tok(0, n)]),
+                        (a(n - 1), vec![]),
+                        (a(n + 5), vec![tok(0, n + 5)]),
+                        (format!("{}b{}", a(n - 1), a(n + 1)), vec![tok(n, 2 * n + 1)]),
+                    ],
+                ),
+                _ => {
+                    let m = n - n / 3;
+                    (
+                        format!("a{{{},{}}}", m, n),
+                        vec![
+                            (a(n), vec![tok(0, n)]),
+                            (a(m), vec![tok(0, m)]),
+                            (a(m - 1), vec![]),
+                            (a(n + 2), vec![tok(0, n)]),
+                            (a(n + m), vec![tok(0, n), tok(n, n + m)]),
+                        ],
+                    )
+                }
+            };
+            (vec![scnr::Pattern::new(pat, 7)], probes)
+        }
         Family::ChainX { n } | Family::ChainClass { n } | Family::ChainGroup { n } => {
             let (pat, unit, last): (String, &str, char) = match f {
                 Family::ChainX { .. } => (format!("x{{{}}}y", n), "x", 'y'),
@@ -192,13 +246,13 @@ impl Check for C17 {
         "C17"
     }
     fn rule(&self) -> &'static str {
-        "case = instance of a parametrised family: K single-character patterns with distinct sparse token types (K up to 70 000), all 2^L keywords over {a,b} sharing prefixes plus [ab]+, n numbered keywords k00000.. sharing their first character (fixed: 300, 1 100, 2 100; 2^10 keywords), chains x{N}y, [ab]{N}c, (xy){N}z; probes: for lists the characters at indices 0, 1, K/2, 32 767, 32 768, 65 534..65 537, K-1 and pseudo-random ones with skipped foreign characters in between; for chains the accepted word of exact length, one unit shorter, 2^16 units shorter, one unit longer; oracle = closed form of the longest-match / first-listed rule for the family; build may return Err (then nothing else is required), a panic or a different token stream is a violation; quick = 16 generated instances of 1 000-16 000 states; thorough = additionally fixed instances crossing 65 535 states (lists with K = 65 534, 65 537, 66 000, 70 000 and the chain x{66000}y); non-trivial = instance whose unminimized automaton (feature-gated recorder) has > 1 000 states (quick) / > 65 535 states (thorough fixed instances)"
+        "case = instance of a parametrised family: K single-character patterns with distinct sparse token types (K up to 70 000), all 2^L keywords over {a,b} sharing prefixes plus [ab]+, n numbered keywords k00000.. sharing their first character (fixed: 300, 1 100, 2 100; 2^10 keywords), chains x{N}y, [ab]{N}c, (xy){N}z, counted repetitions that are the whole pattern a{N}, (ab){N}, a{N,}, a{M,N} (exact, one short, one long, two in a row, after a near miss); probes: for lists the characters at indices 0, 1, K/2, 32 767, 32 768, 65 534..65 537, K-1 and pseudo-random ones with skipped foreign characters in between; for chains the accepted word of exact length, one unit shorter, 2^16 units shorter, one unit longer; oracle = closed form of the longest-match / first-listed rule for the family; build may return Err (then nothing else is required), a panic or a different token stream is a violation; quick = 24 generated instances of 1 000-16 000 states; thorough = additionally fixed instances crossing 65 535 states (lists with K = 65 534, 65 537, 66 000, 70 000 and the chain x{66000}y); non-trivial = instance whose unminimized automaton (feature-gated recorder) has > 1 000 states (quick) / > 65 535 states (thorough fixed instances)"
     }
     fn cases(&self, thorough: bool) -> usize {
         if thorough {
             32
         } else {
-            16
+            24
         }
     }
     fn case_timeout_s(&self) -> u64 {
@@ -213,6 +267,15 @@ impl Check for C17 {
             case_of(&Family::ChainClass { n: 6 }),
             case_of(&Family::ChainGroup { n: 4 }),
             case_of(&Family::Numbered { n: 30 }),
+            case_of(&Family::Pure { n: 7, shape: 0 }),
+            case_of(&Family::Pure { n: 6, shape: 1 }),
+            case_of(&Family::Pure { n: 9, shape: 2 }),
+            case_of(&Family::Pure { n: 9, shape: 3 }),
+            // counted repetitions that are the whole pattern, beyond 1 024 / 2 048 / 4 096 states
+            case_of(&Family::Pure { n: 1_500, shape: 0 }),
+            case_of(&Family::Pure { n: 700, shape: 1 }),
+            case_of(&Family::Pure { n: 2_300, shape: 2 }),
+            case_of(&Family::Pure { n: 520, shape: 3 }),
             // thresholds in the number of patterns / transitions of one state: 256, 1024, 2048
             case_of(&Family::Numbered { n: 300 }),
             case_of(&Family::Numbered { n: 1100 }),
@@ -223,6 +286,8 @@ impl Check for C17 {
         ];
         if thorough {
             v.push(case_of(&Family::ChainX { n: 66_000 }));
+            v.push(case_of(&Family::Pure { n: 40_000, shape: 0 }));
+            v.push(case_of(&Family::Pure { n: 6_000, shape: 1 }));
             v.push(case_of(&Family::List { k: 70_000, base: 0x20000 - 0x800, tt_mul: 3, tt_add: 1 }));
             v.push(case_of(&Family::List { k: 66_000, base: 0x4E00, tt_mul: 1, tt_add: 0 }));
             v.push(case_of(&Family::List { k: 65_537, base: 0x3000, tt_mul: 2, tt_add: 5 }));
@@ -232,7 +297,17 @@ impl Check for C17 {
     }
     fn generate(&self, d: &mut Dec, thorough: bool) -> Case {
         let scale = if thorough { 2 } else { 1 };
-        let f = match d.below(6) {
+        let f = match d.below(8) {
+            6 | 7 => {
+                // (xy){n} and a{m,n} cost scnr far more than linear time to build
+                let shape = d.below(4);
+                let n = match shape {
+                    1 => 300 + d.below(900 * scale),
+                    3 => 150 + d.below(350 * scale),
+                    _ => 300 + d.below(2_500 * scale),
+                };
+                Family::Pure { n, shape }
+            }
             5 => Family::Numbered {
                 n: 200 + d.below(2_500 * scale),
             },
@@ -273,6 +348,7 @@ impl Check for C17 {
                 return Ok(discard("discard_shape"))
             }
             Family::Numbered { n } if *n < 3 || *n > 90_000 => return Ok(discard("discard_shape")),
+            Family::Pure { n, shape } if *n < 6 || *n > 200_000 || *shape > 3 => return Ok(discard("discard_shape")),
             _ => {}
         }
         let (pats, probes) = instance(&f);
